@@ -6,12 +6,11 @@
    of the text syntax); a whole document of policies parses to the list of policies in order.
    Proofs: Proofs/ParserRoundTrip.v (tokens -> tree), Proofs/LexRender.v (rendered bytes -> tokens), Proofs/TextPipeline.v (composition with
    the C18 scanner).  Byte level: C08_text_roundtrip (render, tokenize with the specification tokenizer, parse) and C08_streamed_text_roundtrip
-   (the same through the buffered scanner over EVERY chunking of a non-failing reader).  (That [norm] preserves evaluation is decided by the
-   direct oracle of the check.) *)
+   (the same through the buffered scanner over EVERY chunking of a non-failing reader).  That [norm] preserves evaluation: C08_same_meaning (Proofs/NormMeaning.v). *)
 From Coq Require Import ZArith List Bool.
 Import ListNotations.
 From Cedar Require Import Lang.Value Impl.Like Lang.Expr Impl.Scanner Impl.Tokenizer Lang.Cursor Impl.Quote Impl.Parser Impl.Printer Lang.RoundTrip
-  Proofs.ScannerProofs Proofs.ParserRoundTrip Proofs.LexRender Proofs.TextPipeline.
+  Impl.Eval Impl.IPAddr Proofs.ScannerProofs Proofs.ParserRoundTrip Proofs.LexRender Proofs.TextPipeline Proofs.NormMeaning.
 Local Open Scope Z_scope.
 
 Section C08.
@@ -61,8 +60,25 @@ Section C08.
   Proof. exact (streamed_text_roundtrip is_printable is_gext set_order print_ip no_extra print_ip_plain). Qed.
 End C08.
 
+(* ... and the normal form MEANS the same: the policy that comes back from the text evaluates, in every well-formed environment, to the
+   same Boolean or the same error as the original, so every authorization decision is unchanged.  (policy_lit_ok: literal values are
+   well formed and their extension-typed leaves are in the range the printers round-trip - the first day of the datetime range is the
+   known finding F27; set_order lists the members of a set value in SOME order: a permutation.) *)
+Theorem C08_same_meaning : forall set_order, (forall l, Permutation.Permutation (set_order l) (seq 0 (List.length l))) ->
+  forall print_ip ip_ok, (forall v6 a p, ip_ok v6 a p = true -> parse_ip (print_ip v6 a p) = Some (v6, a, p)) ->
+  forall en p, norm_env_wf en -> policy_lit_ok ip_ok p = true ->
+    bool_eval en (policy_to_expr (norm_policy set_order print_ip p)) = bool_eval en (policy_to_expr p).
+Proof. exact policy_norm_same_outcome. Qed.
+
+Theorem C08_same_meaning_expr : forall set_order, (forall l, Permutation.Permutation (set_order l) (seq 0 (List.length l))) ->
+  forall print_ip ip_ok, (forall v6 a p, ip_ok v6 a p = true -> parse_ip (print_ip v6 a p) = Some (v6, a, p)) ->
+  forall en e, norm_env_wf en -> lit_ok ip_ok e = true -> res_equiv (eval en (norm set_order print_ip e)) (eval en e).
+Proof. exact eval_norm. Qed.
+
 Print Assumptions C08_policy_roundtrip.
 Print Assumptions C08_expr_roundtrip.
 Print Assumptions C08_document_roundtrip.
 Print Assumptions C08_text_roundtrip.
 Print Assumptions C08_streamed_text_roundtrip.
+Print Assumptions C08_same_meaning.
+Print Assumptions C08_same_meaning_expr.
